@@ -1,6 +1,7 @@
 package main
 
 import (
+	"fmt"
 	"go/ast"
 	"go/token"
 	"go/types"
@@ -1047,6 +1048,155 @@ func init() {
 				}
 				if !found {
 					obs = append(obs, mkOb(c, rid, u, "expansion of the head", fd, Undecided, "no macroExpand1 call found", true))
+				}
+			}
+			return obs
+		}})
+}
+
+// MACRO.arg-order — C01 ("operands are evaluated left to right"): a core macro
+// implemented in Go receives its operands unevaluated and places them in the
+// form it builds; the order in which they appear in that form is the order in
+// which the program's side effects and errors happen.  For every such macro
+// the operands appear in the built form in the order they were written.
+func init() {
+	register(&Rule{ID: "MACRO.arg-order", Floor: 4,
+		Doc: "in every core macro implemented in Go, the operand expressions (locals bound to args.Cells[k] / args.Cells[k:]) are first mentioned, in the source order of the form-building expression the macro returns, in increasing k: the expansion evaluates the operands in the order the call wrote them (which of two failing operands raises, which side effect happens first)",
+		Run: func(c *Ctx) []Obligation {
+			const rid = "MACRO.arg-order"
+			cellsFld := c.LookupField("lisp.LVal.Cells")
+			if cellsFld == nil {
+				return []Obligation{anchorMissing(rid, "LVal.Cells")}
+			}
+			var obs []Obligation
+			seen := map[ast.Node]bool{}
+			for _, e := range c.Registry() {
+				if e.Kind != "macro" || rel(e.Pkg.PkgPath) != "lisp" || e.Problem != "" {
+					continue
+				}
+				body, u, lit, ok := c.BodyOf(e)
+				if !ok || seen[body] {
+					continue
+				}
+				seen[body] = true
+				info := u.Pkg.TypesInfo
+				args := argsParam(info, u, lit)
+				if args == nil {
+					continue
+				}
+				// operand locals
+				idx := map[types.Object]int{}
+				ast.Inspect(body, func(n ast.Node) bool {
+					as, ok := n.(*ast.AssignStmt)
+					if !ok || len(as.Lhs) != len(as.Rhs) {
+						return true
+					}
+					for i, r := range as.Rhs {
+						var base ast.Expr
+						k, okc := 0, false
+						switch x := ast.Unparen(r).(type) {
+						case *ast.IndexExpr:
+							base = x.X
+							k, okc = intConst(info, x.Index)
+						case *ast.SliceExpr:
+							base = x.X
+							if x.Low != nil {
+								k, okc = intConst(info, x.Low)
+							}
+						}
+						if base != nil && okc && isArgsCells(info, base, args, cellsFld) {
+							if o := identObj(info, as.Lhs[i]); o != nil {
+								idx[o] = k
+							}
+						}
+					}
+					return true
+				})
+				if len(idx) < 2 {
+					continue
+				}
+				// the returned form: mentions in source order, inside return statements (and
+				// inside the definitions of locals the return mentions, one level)
+				var order []types.Object
+				mentioned := map[types.Object]bool{}
+				var visit func(n ast.Node, depth int)
+				visit = func(n ast.Node, depth int) {
+					ast.Inspect(n, func(m ast.Node) bool {
+						id, ok := m.(*ast.Ident)
+						if !ok {
+							return true
+						}
+						o := info.Uses[id]
+						if o == nil {
+							return true
+						}
+						if _, isOp := idx[o]; isOp {
+							if !mentioned[o] {
+								mentioned[o] = true
+								order = append(order, o)
+							}
+							return true
+						}
+						// a local form-under-construction: follow its single definition
+						if depth < 3 {
+							if v, isVar := o.(*types.Var); isVar && !v.IsField() && v.Parent() != nil && v.Pkg() == u.Pkg.Types {
+								var def ast.Expr
+								nd := 0
+								ast.Inspect(body, func(k ast.Node) bool {
+									if as, ok := k.(*ast.AssignStmt); ok && len(as.Lhs) == len(as.Rhs) {
+										for i, l := range as.Lhs {
+											if identObj(info, l) == o {
+												nd++
+												def = as.Rhs[i]
+											}
+										}
+									}
+									return true
+								})
+								if nd == 1 && def != nil && def.Pos() < id.Pos() {
+									visit(def, depth+1)
+								}
+							}
+						}
+						return true
+					})
+				}
+				ast.Inspect(body, func(n ast.Node) bool {
+					// error exits (`if x.Type == LError { return x }`, `return env.Errorf(…)`) build no form
+					if is, ok := n.(*ast.IfStmt); ok && strings.Contains(types.ExprString(is.Cond), "LError") {
+						if is.Else != nil {
+							ast.Inspect(is.Else, func(ast.Node) bool { return true })
+						}
+						return false
+					}
+					if rs, ok := n.(*ast.ReturnStmt); ok && len(rs.Results) == 1 {
+						if ce, ok := ast.Unparen(rs.Results[0]).(*ast.CallExpr); ok {
+							if f := Callee(info, ce); f != nil && strings.HasSuffix(f.Name(), "Errorf") {
+								return true
+							}
+						}
+						visit(rs.Results[0], 0)
+					}
+					return true
+				})
+				if len(order) < 2 {
+					continue
+				}
+				bad := ""
+				for i := 1; i < len(order); i++ {
+					if idx[order[i]] < idx[order[i-1]] {
+						bad = fmt.Sprintf("operand %d (%s) is placed before operand %d (%s)", idx[order[i-1]], order[i-1].Name(), idx[order[i]], order[i].Name())
+					}
+				}
+				construct := "macro " + e.Name
+				if bad != "" {
+					obs = append(obs, mkOb(c, rid, u, construct, body, Violated, "in the form this macro builds "+bad+": the expansion evaluates the later operand first, so when both have side effects they happen in the wrong order and when both fail the wrong error is raised", true))
+				} else {
+					names := []string{}
+					for _, o := range order {
+						names = append(names, o.Name())
+					}
+					obs = append(obs, mkOb(c, rid, u, construct, body, Proved, "operands appear in call order: "+strings.Join(names, ", "), true))
 				}
 			}
 			return obs
